@@ -24,6 +24,7 @@ type Case struct {
 	Nested bool     `json:"nested,omitempty"` // the pipeline is itself a stage of an outer pipeline
 	Vals   int      `json:"vals,omitempty"`   // value shape: 0 plain, 1 the winning level's value is empty, 2 values contain '=' and a space, 3 every lower level's value is empty
 	Name2  string   `json:"name2,omitempty"`  // name of the second variable (default W)
+	Sibs   []string `json:"sibs,omitempty"`   // further names only the parent process defines (neighbours of X in a sorted environment)
 	SubDir bool     `json:"subdir,omitempty"` // invoked from a sub-directory
 	Args   []string `json:"args,omitempty"`
 	Via    string   `json:"via,omitempty"`
@@ -32,7 +33,7 @@ type Case struct {
 }
 
 func (c Case) String() string {
-	return fmt.Sprintf("%s levels=%v desc=%v order=%v stage=%v nested=%v vals=%d name2=%q subdir=%v args=%q via=%q k=%d p=%d second=%v", c.Kind, c.Levels, c.Desc, c.Order, c.Stage, c.Nested, c.Vals, c.Name2, c.SubDir, c.Args, c.Via, c.K, c.P, c.Second)
+	return fmt.Sprintf("%s levels=%v desc=%v order=%v stage=%v nested=%v vals=%d name2=%q sibs=%v subdir=%v args=%q via=%q k=%d p=%d second=%v", c.Kind, c.Levels, c.Desc, c.Order, c.Stage, c.Nested, c.Vals, c.Name2, c.Sibs, c.SubDir, c.Args, c.Via, c.K, c.P, c.Second)
 }
 
 func has(l []int, x int) bool {
@@ -160,11 +161,17 @@ func envCase(c Case, dir string) string {
 	if has(c.Second, 1) {
 		env = append(env, c.n2()+"="+c.val(1, "y"))
 	}
+	sibObs, sibWant := "", ""
+	for _, sb := range c.Sibs {
+		env = append(env, sb+"=sib-"+sb)
+		sibObs += " " + sb + "=$" + sb
+		sibWant += " " + sb + "=sib-" + sb
+	}
 	if has(c.Levels, 2) || has(c.Second, 2) {
 		y.WriteString("contexts:\n  c1:\n    env:\n" + vars(c.Levels, 2, "      "))
 	}
 	obs := func(tag string) string {
-		return fmt.Sprintf("'echo \"%s X=${X-unset} Y=${%s-unset} P=$PASS TN=$TASK_NAME\"'", tag, c.n2())
+		return fmt.Sprintf("'echo \"%s X=${X-unset} Y=${%s-unset} P=$PASS TN=$TASK_NAME%s\"'", tag, c.n2(), sibObs)
 	}
 	y.WriteString("tasks:\n  t1:\n    before: " + obs("HOOKB") + "\n    command:\n      - " + obs("OBS") + "\n      - " + obs("SECOND") + "\n    after: " + obs("HOOKA") + "\n")
 	if has(c.Levels, 2) || has(c.Second, 2) {
@@ -217,7 +224,7 @@ func envCase(c Case, dir string) string {
 	if len(c.Second) > 0 {
 		wantY = c.val(maxOf(c.Second), "y")
 	}
-	want := fmt.Sprintf("OBS X=%s Y=%s P=through TN=t1", wantX, wantY)
+	want := fmt.Sprintf("OBS X=%s Y=%s P=through TN=t1%s", wantX, wantY, sibWant)
 	got := lineWith(r.out, "OBS ")
 	if r.code != 0 {
 		return fmt.Sprintf("exit status %d: %s", r.code, strings.TrimSpace(r.out))
@@ -912,7 +919,7 @@ func main() {
 			return false
 		}
 		res.Evaluations++
-		distinct[fmt.Sprint(c.Kind, c.Levels, c.Stage, c.Nested, c.Vals, c.Name2, c.Args, c.K, c.P, c.SubDir, c.Via)] = true
+		distinct[fmt.Sprint(c.Kind, c.Levels, c.Stage, c.Nested, c.Vals, c.Name2, c.Sibs, c.Args, c.K, c.P, c.SubDir, c.Via)] = true
 		if res.Evaluations%23 == 1 {
 			res.AddSample(c.String())
 		}
@@ -962,6 +969,17 @@ func main() {
 				for vs := 1; vs <= 3; vs++ {
 					if do(Case{Kind: "env", Levels: s, Stage: stage, Vals: vs}) {
 						goto done
+					}
+				}
+				// the shape of the parent environment around X must not matter: names that sort just before and just
+				// after "X=" ('0'-'9' sort before '=', letters and '_' after it), alone and together
+				if has(s, 1) && len(s) > 1 {
+					for _, sibs := range [][]string{{"X2"}, {"X0", "X9"}, {"X_"}, {"XA", "Xa"}, {"W9", "X2", "X_", "Y"}} {
+						for _, desc := range []bool{false, true} {
+							if do(Case{Kind: "env", Levels: s, Desc: desc, Stage: stage, Sibs: sibs}) {
+								goto done
+							}
+						}
 					}
 				}
 				// a second variable on the complementary levels whose name is a case variant or an extension of the first
